@@ -215,7 +215,79 @@ class Oracle:
             self.state[i] = np.zeros_like(self.state[i])
 
 
+def check_special(ctx, case):
+    """senders that the executable model does not cover (a sub-model, a list of nodes): direct
+    oracle only, with a decoding reservoir (identity activation, W = Win = 0, Wfb = ones) whose
+    state IS the feedback it read"""
+    common.quiet()
+    from reservoirpy.node import Node
+    from reservoirpy.nodes import Reservoir, Ridge
+    open_k = common.open_findings("C05")
+    ob = "feedback_special_senders"
+    ctx.count(case, obligation=ob)
+
+    def dim_init(node, x=None, **kw):
+        node.set_input_dim(x.shape[1])
+        node.set_output_dim(x.shape[1])
+    if case["kind"] == "k1_submodel_sender":
+        def run_case(submodel):
+            src = Node(forward=lambda n, x: x * 1.0, initializer=dim_init)
+            res = Reservoir(W=np.zeros((2, 2)), Win=np.zeros((2, 1)), Wfb=np.array([[1.], [0.]]), bias=np.zeros((2, 1)), activation="identity")
+            if submodel:
+                res <<= (src >> Node(forward=lambda n, x: x * 10.0, initializer=dim_init))
+            else:
+                res <<= src
+            m = src >> res
+            X = np.arange(1, 9.).reshape(-1, 1)
+            o1 = m.run(X[:3])
+            o2 = m.run(X[3:6], forced_feedbacks={res.name: np.array([[100.], [200.], [300.]])})
+            o3 = m.run(X[6:])
+            return np.vstack([o1, o2, o3])[:, 0]
+        r = common.exc_class(lambda: (run_case(False), run_case(True)))
+        if r[0] != "ok":
+            ctx.violation(f"feedback from a sub-model raised {r[1]}", case, obligation=ob)
+            return
+        plain, sub = r[1]
+        want_plain = np.array([0., 1., 2., 0., 100., 200., 6., 7.])
+        if not np.array_equal(plain, want_plain):
+            ctx.violation(f"node sender: the receiver read {plain.tolist()}, expected {want_plain.tolist()} (previous step's output; forced values shifted)",
+                          case, obligation=ob)
+            return
+        want_sub = np.array([0., 10., 20., 0., 100., 200., 60., 70.])
+        if not np.array_equal(sub, want_sub):
+            msg = (f"sub-model feedback sender: after 3 forced-feedback steps the receiver read {sub.tolist()} instead of {want_sub.tolist()} "
+                   "(a value several steps old on the first free step)")
+            if "K1" in open_k and sub[6] != 60.:
+                ctx.known("K1", msg)
+            else:
+                ctx.violation(msg, case, obligation=ob)
+    elif case["kind"] == "k10_list_senders":
+        def run_case():
+            r = Reservoir(W=np.zeros((4, 4)), Win=np.zeros((4, 2)), bias=np.zeros((4, 1)), activation="identity", Wfb=lambda *s, **k: np.ones(s))
+            o1 = Ridge(1, Wout=np.zeros((4, 1)), bias=np.array([[1.]]))
+            o2 = Ridge(2, Wout=np.zeros((4, 2)), bias=np.array([[10., 20.]]))
+            r <<= [o1, o2]
+            m = r >> [o1, o2]
+            out = m.run(np.ones((4, 2)), return_states=[r.name])
+            return r.feedback_dim, out[r.name][:, 0]
+        r = common.exc_class(run_case)
+        if r[0] != "ok":
+            ctx.violation(f"feedback from a list of senders raised {r[1]}", case, obligation=ob)
+            return
+        fdim, seen = r[1]
+        # senders emit 1 and (10, 20) at every step: from step 1 on the receiver must read 1 + 10 + 20
+        if fdim != 3 or not np.array_equal(seen, np.array([0., 31., 31., 31.])):
+            msg = (f"feedback from a list of senders [a (1 output), b (2 outputs)]: feedback_dim = {fdim} and the receiver read {seen.tolist()}; "
+                   "expected dimension 3 and the sum 31 of all three outputs from the second step on (only one sender is delivered)")
+            if "K10" in open_k and fdim < 3:
+                ctx.known("K10", msg)
+            else:
+                ctx.violation(msg, case, obligation=ob)
+
+
 def check_case(ctx, case):
+    if case.get("kind") in ("k1_submodel_sender", "k10_list_senders"):
+        return check_special(ctx, case)
     common.quiet()
     _BUFS.clear()
     ob = "feedback_dataflow"
